@@ -260,6 +260,9 @@ def main(argv=None):
         print('violated labels:', sorted({v['label'] for v in violations}))
         d = os.path.join(VERIF, 'replays', a.pid)
         os.makedirs(d, exist_ok=True)
+        for old in os.listdir(d):
+            if old.startswith(a.tier + '-'):
+                os.remove(os.path.join(d, old))
         for i, v in enumerate(violations[:10]):
             p = os.path.join(d, f'{a.tier}-{i}.json')
             with open(p, 'w') as f:
